@@ -70,6 +70,7 @@ def inject(d: dict, slot: str, text: str):
     pk = next(iter(d["paths"]))
     op = d["paths"][pk]["post"]
     P = op["parameters"]
+    ek = next(k for k, v in S.items() if isinstance(v, dict) and "enum" in v)
     if slot == "info.title":
         d["info"]["title"] = text
     elif slot == "info.description":
@@ -119,6 +120,8 @@ def inject(d: dict, slot: str, text: str):
     elif slot == "schema.key":
         if "/" in text or "~" in text or "#" in text or "%" in text:
             return None
+        if ek != "Color":
+            return None
         S[text] = S.pop("Color")
         S["Thing"]["properties"]["kind"] = {"$ref": f"#/components/schemas/{text}"}
     elif slot == "schema.title":
@@ -137,11 +140,11 @@ def inject(d: dict, slot: str, text: str):
     elif slot == "property.title":
         S["Thing"]["properties"]["name"]["title"] = text
     elif slot == "enum.value":
-        S["Color"]["enum"] = ["red", "0" + text]
+        S[ek]["enum"] = ["red", "0" + text]
     elif slot == "enum.value.first_alpha":
-        S["Color"]["enum"] = ["red", "z" + text]
+        S[ek]["enum"] = ["red", "z" + text]
     elif slot == "enum.description":
-        S["Color"]["description"] = text
+        S[ek]["description"] = text
     elif slot == "const.value":
         S["Thing"]["properties"]["fixed"] = {"const": text}
     elif slot == "default.string":
@@ -149,7 +152,9 @@ def inject(d: dict, slot: str, text: str):
     elif slot == "default.any":
         S["Thing"]["properties"]["anyd"]["default"] = text
     elif slot == "default.enum_ref":
-        S["Color"]["enum"] = ["red", "0" + text]
+        S[ek]["enum"] = ["red", "0" + text]
+        if ek != "Color":
+            return None
         S["Thing"]["properties"]["kind"] = {"allOf": [{"$ref": "#/components/schemas/Color"}], "default": "0" + text}
     elif slot == "default.query_param":
         P[4]["schema"]["default"] = text
